@@ -421,6 +421,31 @@ def _c11_chunk(args):
     return out
 
 
+def _c11_systematic(imports):
+    """Deterministic family: ONE import, every ordered pair of subjects (related or not), every single object, all shapes: batch = conjunction."""
+    mods = TREES["nestedprefix"]
+    cand = [m for m in mods if "." in m]
+    arch = build_arch(mods, [imports])
+    out = dict(cases=0, nontrivial=0, violations=[], samples=[])
+    for s1 in cand:
+        for s2 in cand:
+            if s1 == s2:
+                continue
+            S = [("name", s1), ("name", s2)]
+            for o in cand:
+                O = [("name", o)]
+                for verb, imp, exc in SHAPES:
+                    whole = _kind(make_rule(S, verb, imp, exc, O), arch)
+                    singles = [_kind(make_rule([s], verb, imp, exc, O), arch) for s in S]
+                    out["cases"] += 1
+                    out["nontrivial"] += 1
+                    if "error" not in singles + [whole] and (whole == "pass") != all(k == "pass" for k in singles):
+                        if len(out["violations"]) < 2:
+                            out["violations"].append(dict(case="batch-subjects", detail=f"single import {imports}: batch -> {whole}; single-subject rules -> {singles}",
+                                                          input=dict(tree="nestedprefix", imports=[list(imports)], case="batch-subjects", verb=verb, import_=imp, except_=exc, S=S, O=O)))
+    return out
+
+
 def bounded_expansion(tier, seed):
     b = Bounded("C11.regex-and-batch-equal-expansion", "trees flat/deep/prefix; import relations (related endpoints included) all with <=1 import + 30/300 random; 8 regex forms "
                 "(anchored name, prefix, alternation, character class, suffix, unmatched) on either side x 12 shapes; batches of 1-3 subjects/objects incl. related modules")
@@ -436,6 +461,9 @@ def bounded_expansion(tier, seed):
         for i in range(0, len(rels), size):
             jobs.append((tree, rels[i:i + size], rng.randrange(1 << 30), 3 if tier == "quick" else 8))
     _merge(b, pmap(_c11_chunk, jobs))
+    mods_np = TREES["nestedprefix"]
+    singles = [(a, c) for a in mods_np for c in mods_np if a != c and "." in a and "." in c]
+    _merge(b, pmap(_c11_systematic, singles))
     # the deprecated partial-name form equals its regex translation
     from pytestarch import Rule
     from pytestarch.utils.partial_match_to_regex_converter import convert_partial_match_to_regex
